@@ -117,9 +117,23 @@ fn check_str(s: &str, out: &mut CaseOut) {
         ),
         Ok(res) => match (&exp, &res) {
             (Expect::NotJudged, _) => {}
-            (Expect::Ok(v), Ok(g)) => out.check(v == g, "C20", &format!("parse_value/{class}"), || {
-                format!("try_from({s:?}) = Ok({g}), expected Ok({v})")
-            }),
+            (Expect::Ok(v), Ok(g)) => {
+                out.check(v == g, "C20", &format!("parse_value/{class}"), || format!("try_from({s:?}) = Ok({g}), expected Ok({v})"));
+                // the other parsing routes accept the same grammar (any three-byte prefix, then the number)
+                let v = *v;
+                let other = guard(|| {
+                    let t = HpoTermId::from_u32(v);
+                    (HpoTermId::from(s.to_string()).as_u32(), t == s, t == *s)
+                });
+                out.bucket("other_parsing_routes_on_arbitrary_prefix");
+                match other {
+                    Ok((from_string, eq_ref, eq_str)) => {
+                        out.check(from_string == v, "C20", "from_string_value", || format!("HpoTermId::from({s:?}.to_string()) = {from_string}, expected {v}"));
+                        out.check(eq_ref && eq_str, "C20", "partial_eq_str", || format!("HpoTermId({v}) == {s:?} is false"));
+                    }
+                    Err(p) => out.violate("C20", "from_string_panics_on_wellformed_text", format!("From<String> / PartialEq<str> on {s:?} panicked: {} at {}", p.message, p.location)),
+                }
+            }
             (Expect::Err, Err(_)) => out.comparisons += 1,
             (Expect::Ok(v), Err(e)) => out.violate("C20", &format!("parse_rejects_number/{class}"), format!("try_from({s:?}) = Err({e}), expected Ok({v})")),
             (Expect::Err, Ok(g)) => out.violate("C20", &format!("parse_accepts_garbage/{class}"), format!("try_from({s:?}) = Ok({g}), expected an error")),
@@ -140,7 +154,7 @@ impl Monitor for C20 {
     }
     fn assumptions(&self) -> Vec<String> {
         vec![
-            "From<String> / PartialEq<&str> are only exercised on valid renderings (they are documented to panic on malformed text)".into(),
+            "From<String> / PartialEq<&str> are only exercised on well-formed text (any three-byte prefix followed by an unsigned 32-bit decimal number); they are documented to panic on malformed text".into(),
             "a leading '+' (accepted by Rust's u32 grammar) is not judged".into(),
         ]
     }
